@@ -52,6 +52,20 @@ Theorems (Property.v; Proofs1..12.v ~ 2600 lines, build ~35 s):
 All full strength for the model; Raise OtherError (dangling id / fuel) is excluded by requiring Ok results, and
 the case files show the fuel given by the harness (next id) always suffices (a mismatch would be Ok vs Raise).
 
+Deepening round (2026-09-26): tensors are no longer opaque tokens but heap cells CTensor(name) shared by clone and
+original (v_const and TENSOR attributes link to them); the Value.name setter is modelled with its tensor rename,
+in-place Attr edits (attr.doc_string / attr.name) are two new operations (21 setters).  New theorems:
+C13_independent_step (rename-free ops: full frame), C13_independent_step_any (every op: all non-tensor cells of the
+other side unchanged), C13_independent (every clone-sided history, non-tensor cells), C13_independent_no_tensor_rename
+/ _canon / _model / C13_functional_pass_pure (rename-free histories: all cells, serialization),
+C13_independent_tensor_rename_refuted (known finding tensor-rename-alias, vm_compute witness w2 = Constant(value=t) -> v
+with v.const_value = t), C13_shared_attr_edit_visible (in-place edit of the shared Attr is visible in the original,
+replacing the dict entry is not), Example C13_no_tensor_rename_satisfiable.  Moved from "modelled, not verified" /
+oracle-only into model + correspondence: tensor objects' names (dumped as cells; renames through Value.name compared
+after every history; attribute tensor names in the to_proto projection), in-place mutation of shared Attr objects.
+Harness: one serialization warm-up before the first dump (serde syncs initializer tensor names), at most one
+initializer name per tensor object in generated models, every tensor object is a root of the initial heap.
+
 Readings of the English (weaker reading where ambiguous):
   * "tensors may be shared" and non-graph Attr objects are shared by the code on purpose: mutating a shared Attr
     object in place (attr.name / doc_string / meta) or a tensor's own fields is outside the property; "attribute
@@ -63,8 +77,9 @@ Readings of the English (weaker reading where ambiguous):
     itself rename initializer tensors (serde syncs tensor.name), so baselines are taken after a warm-up.
   * captured outer-scope values are shared by design: their use lists change and edits of them are visible on
     both sides; the oracle skips them.  Model.meta is not copied by Model.clone (new empty store): not serialized.
-Modelled, not verified: back-pointers (uses/producer/graph) and the name authority; tensor objects' fields;
-inner element-type objects shared between values of the ORIGINAL; meta values other than ints / lists of ints.
+Modelled, not verified: back-pointers (uses/producer/graph) and the name authority; tensor fields other than
+the name (doc_string, metadata_props of the tensor); the initializer branch of the Value.name setter (re-keying the
+graph's initializer dict: generated histories do not rename initializers); inner element-type objects shared between values of the ORIGINAL; meta values other than ints / lists of ints.
 
 Findings: (1) FIXED 82dd72c, unsorted-outer-scope: Graph.clone(allow_outer_scope_values=True) of an unsorted graph
 kept the original's value in the clone; now the use before definition raises (early, before the node is built, for
@@ -229,8 +244,8 @@ class Dumper:
             s = oP(oref(o.shape))
             mp = ref(o.metadata_props, "str")
             me = ref(o.meta)
-            c = None if o.const_value is None else R.tok(o.const_value)
-            return (f"CValue (Val {oN(R.s(o.name))} {t} {s} {oN(R.s(o.doc_string))} {oN(c)} {P(mp)} {P(me)})", kids)
+            c = oP(oref(o.const_value))
+            return (f"CValue (Val {oN(R.s(o.name))} {t} {s} {oN(R.s(o.doc_string))} {c} {P(mp)} {P(me)})", kids)
         if isinstance(o, ir.Node):
             ins = clist(oP(oref(v)) for v in o.inputs)
             outs = clist(P(ref(v)) for v in o.outputs)
@@ -282,11 +297,16 @@ class Dumper:
                 av = f"(AGraph {P(ref(o.value))})"
             elif o.type == T.GRAPHS:
                 av = f"(AGraphs {clist(P(ref(g)) for g in o.value)})"
+            elif o.type == T.TENSOR and o.value is not None:
+                av = f"(ATensor {P(ref(o.value))})"
             else:
                 av = f"(AVal {cN(int(o.type))} {cN(self.attr_tok(o))})"
             return (f"CAttr (Att {cN(R.s(o.name))} {av} {oN(R.s(o.doc_string))})", kids)
         if isinstance(o, list):
             return (f"CObj {clist(cZ(int(x)) for x in o)}", kids)
+        if isinstance(o, ir.TensorProtocol):
+            # a tensor object: its data is its identity (never copied), its name is mutable (Value.name setter, serde)
+            return (f"CTensor {oN(R.s(o.name))}", kids)
         if isinstance(o, ir.Function):
             g = ref(o._graph)  # noqa: SLF001  (identity of the underlying graph has no public accessor)
             ats = clist(f"({cN(R.s(k))}, {P(ref(a))})" for k, a in o.attributes.items())
@@ -335,6 +355,7 @@ class Gen:
         self.ir, self.np, self.rng, self.size = ir, np, rng, size
         self.n = 0
         self.tensors = []
+        self.init_tensors = set()
         self.types = []
         self.cfgs = []
         self.subgraphs = []
@@ -345,13 +366,22 @@ class Gen:
         self.n += 1
         return f"{p}{self.n}"
 
-    def tensor(self):
+    def tensor(self, for_init=False):
+        """A tensor object, often shared (attributes, const_value of several values); at most ONE initializer name
+        per tensor: serde sets tensor.name = initializer name on every serialization, and with two differently named
+        initializers on one tensor object a serialization is not idempotent (see serialize())."""
         ir, np, rng = self.ir, self.np, self.rng
-        if self.tensors and rng.random() < 0.4:
-            return rng.choice(self.tensors)
+        pool = [t for t in self.tensors if not (for_init and id(t) in self.init_tensors)]
+        if pool and rng.random() < 0.4:
+            t = rng.choice(pool)
+            if for_init:
+                self.init_tensors.add(id(t))
+            return t
         t = ir.Tensor(np.array([rng.randrange(9) for _ in range(rng.randrange(1, 3))], dtype=np.float32),
                       name=self.fresh("t"))
         self.tensors.append(t)
+        if for_init:
+            self.init_tensors.add(id(t))
         return t
 
     def mk_type(self):
@@ -403,7 +433,7 @@ class Gen:
     def mk_value(self, prefix="v", const=False):
         ir = self.ir
         v = ir.Value(name=self.fresh(prefix), type=self.mk_type(), shape=self.mk_shape(),
-                     const_value=self.tensor() if const else None)
+                     const_value=self.tensor(for_init=True) if const else None)
         self.decorate(v)
         return v
 
@@ -411,7 +441,7 @@ class Gen:
         v.name = self.fresh("o")
         v.type = self.mk_type()
         v.shape = self.mk_shape()
-        if self.rng.random() < 0.1:
+        if self.rng.random() < 0.25:
             v.const_value = self.tensor()
         self.decorate(v)
 
@@ -452,7 +482,7 @@ class Gen:
         inits = [self.mk_value("w", const=True) for _ in range(rng.randrange(0, size))]
         if ins and inits and rng.random() < 0.15:
             # an initializer that is also a graph input
-            ins[0].const_value = self.tensor()
+            ins[0].const_value = self.tensor(for_init=True)
             inits.append(ins[0])
         avail = list(ins) + list(dict.fromkeys(inits))
         nodes = []
@@ -751,20 +781,30 @@ def collect(ir, root):
     return vals, nodes, graphs
 
 
-OPS = ["VSetName", "VSetDoc", "VSetConst", "VSetDtype", "VSetType", "VSetShapeDim", "VSetShape", "MpSet", "MpDel",
+OPS = ["ASetDoc", "ASetName", "VSetName", "VSetName", "VSetDoc", "VSetConst", "VSetDtype", "VSetType", "VSetShapeDim", "VSetShape", "MpSet", "MpDel",
        "MetaSet", "MetaInvalidate", "NSetName", "NReplaceInput", "NSetAttr", "NDelAttr", "GSetName", "GAppendNode",
        "GRemoveNode", "GOpsetSet"]
 
 
-def gen_op(rng, ir, vals, nodes, graphs, uniq):
+def gen_op(rng, ir, vals, nodes, graphs, uniq, attrs=()):
     """-> (name, target object, args) with plain python arguments; objects are referenced directly."""
     for _ in range(20):
         k = rng.choice(OPS)
+        if k[0] == "A":
+            # in-place edit of an Attr object (shared between clone and original unless it holds a graph)
+            # (only Attr objects that existed right after the clone: their ids are known to both sides)
+            if not attrs:
+                continue
+            a = rng.choice(attrs)
+            return (k, a, [rng.choice(["adoc2", None])] if k == "ASetDoc" else [rng.choice(["alpha", "renamed_attr"])])
         if k[0] == "V":
-            cands = [v for v in vals if not (k == "VSetName" and v.is_initializer())]
+            cands = [v for v in vals if not (k in ("VSetName", "VSetConst") and v.is_initializer())]
             if not cands:
                 continue
             v = rng.choice(cands)
+            with_const = [w for w in cands if w.const_value is not None]
+            if k == "VSetName" and with_const and rng.random() < 0.5:
+                v = rng.choice(with_const)        # renames the (shared) tensor object as well
             if k == "VSetName":
                 return (k, v, [rng.choice([uniq("rn"), None])])
             if k == "VSetDoc":
@@ -829,7 +869,11 @@ def apply_op_impl(ir, gen, op):
     """Apply one operation to the implementation through public setters; -> ('ok', None) | ('raise', name)."""
     k, x, a = op
     try:
-        if k == "VSetName":
+        if k == "ASetDoc":
+            x.doc_string = a[0]
+        elif k == "ASetName":
+            x.name = a[0]
+        elif k == "VSetName":
             x.name = a[0]
         elif k == "VSetDoc":
             x.doc_string = a[0]
@@ -899,10 +943,12 @@ def op_term(R: Reg, gen, op) -> str:
 
     def ov(v):
         return "None" if v is None else f"(Some {P(R.id(v))})"
-    if k in ("VSetName", "VSetDoc", "NSetName", "GSetName"):
+    if k == "ASetName":
+        return f"(ASetName {t} {cN(R.s(a[0]))})"
+    if k in ("VSetName", "VSetDoc", "NSetName", "GSetName", "ASetDoc"):
         return f"({k} {t} {oN(R.s(a[0]))})"
     if k == "VSetConst":
-        return f"(VSetConst {t} {oN(R.tok(gen.tensors[0]) if (a[0] and gen.tensors) else None)})"
+        return f"(VSetConst {t} {oP(R.id(gen.tensors[0]) if (a[0] and gen.tensors) else None)})"
     if k == "VSetDtype":
         return f"(VSetDtype {t} {cN(a[0])})"
     if k == "VSetType":
@@ -985,6 +1031,8 @@ def proto_proj(R: Reg, ir, root) -> list[int]:
                     for sg in a.graphs:
                         out += graph(sg)
                     out += [MK(25)]
+                elif a.type == onnx.AttributeProto.TENSOR:
+                    out += [MK(26), e(a.name), e(a.t.name)]
                 else:
                     out += [MK(20), e(a.name)]
             out += [MK(14), e(n.doc_string), MK(15)] + mp(n) + [MK(16)]
@@ -1033,16 +1081,21 @@ def run_case(spec: dict, nops: int):
     gen = sc["gen"]
     R = Reg()
     D = Dumper(R)
+    # serde synchronizes initializer tensor names with their values: serialize first (twice), dump afterwards, so the
+    # dumped tensor names are the ones the proto shows and later serializations of the same objects change nothing
+    serialize(ir, sc["model"])
+    try:
+        proto_proj(R, ir, sc["target"])
+        pproj = proto_proj(R, ir, sc["target"])
+    except Exception:  # noqa: BLE001   (not serializable: the proto tie is skipped for this case, [0] = no proto)
+        pproj = None
+    sc["univ"] = list(sc["univ"]) + list(gen.tensors)       # every tensor object exists in the initial heap
     h0 = D.dump(sc["univ"])
     n0 = R.next
     root = R.id(sc["target"])
     sorted_py = is_sorted(ir, cloned_graph_of(sc))
     info = {"spec": spec, "cells_before": len(h0), "sorted": sorted_py,
             "conflict": ownership_conflict(ir, cloned_graph_of(sc))}
-    try:
-        pproj = proto_proj(R, ir, sc["target"])
-    except Exception:  # noqa: BLE001   (not serializable: the proto tie is skipped for this case, [0] = no proto)
-        pproj = None
     pclone = []
     try:
         clone = sc["clone"]()
@@ -1071,13 +1124,18 @@ def run_case(spec: dict, nops: int):
             cnt[0] += 1
             return f"{p}_{cnt[0]}"
         sides = {"orig": collect(ir, sc["target"] if sc["kind"] != 0 else sc["model"]), "clone": collect(ir, clone)}
+        side_attrs = {k: [a for n in v[1] for a in n.attributes.values()] for k, v in sides.items()}
         for _ in range(nops):
             side = rng.choice(["orig", "clone", "clone"])
-            op = gen_op(rng, ir, *sides[side], uniq)
+            op = gen_op(rng, ir, *sides[side], uniq, attrs=side_attrs[side])
             if op is None:
                 continue
             term = op_term(R, gen, op)       # before applying: ids of the arguments exist already
             js = op_json(R, op)
+            if op[0] == "VSetName" and op[1].const_value is not None and op[1].name != op[2][0]:
+                js["renames_tensor"] = True
+            if op[0][0] == "A":
+                js["attr_shared"] = R.id(op[1]) < n0
             r = apply_op_impl(ir, gen, op)
             ops_terms.append(f"({term}, {'Ok tt' if r[0] == 'ok' else 'Raise ' + r[1]})")
             js["side"], js["result"] = side, r[0] if r[0] == "ok" else r[1]
@@ -1907,8 +1965,7 @@ def run(ck) -> None:
              "environment contract: a pass only touches what is reachable from the model it is given and what it creates "
              "(C13_functional_pass_pure quantifies over all programs of edits on such objects)",
              "modelled not verified: back-pointers (uses/producer/owning graph) and the name authority (C01/C15), tensor "
-             "objects' own fields (tensors are immutable tokens in the model), mutation of shared non-graph Attr objects "
-             "(Attr.name/doc_string/meta setters: Attr objects are shared by design, weaker reading), inner element-type "
+             "fields other than the name, Attr.meta, renaming of initializers (dict re-keying), inner element-type "
              "objects shared between two values of the original, copy.deepcopy of arbitrary meta values (lists of ints here)")
     ck.assumptions += ["PYTHONHASHSEED fixed by ./check", "onnx/numpy as installed in /venv"]
     ck.coverage["rule"] = ("cases = seeded public-API models (nested subgraphs, captured/shared values, initializers, "
@@ -1922,7 +1979,7 @@ def run(ck) -> None:
         ck.broken("build:C13/Iso.v", out[-2000:])
     seen: set = set()
     # ---- corpus + generated cases: correspondence model <-> implementation
-    n = 144 if not ck.thorough else 6000
+    n = 120 if not ck.thorough else 6000
     nops = 6 if not ck.thorough else 10
     specs = load_corpus() + [spec_for(ck.rng, i) for i in range(n)]
     try:
@@ -1941,6 +1998,10 @@ def run(ck) -> None:
         ck.hist("sorted", str(info["sorted"]))
         ck.hist("serializable", str(info.get("serializable")))
         for o in info["ops"]:
+            if o.get("renames_tensor"):
+                ck.hist("special_ops", f"tensor rename via Value.name ({o['side']} side)")
+            if "attr_shared" in o:
+                ck.hist("special_ops", ("shared" if o["attr_shared"] else "cloned") + f" Attr edited in place ({o['side']} side)")
             ck.hist("ops", o["op"])
             ck.hist("op_results", o["result"])
         if info["outcome"] == "ok" and info.get("cells_after", 0) - info["cells_before"] >= 10 and \
